@@ -932,3 +932,129 @@ Qed.
 
 Theorem merge_sorted old new : Sorted.StronglySorted le_row (merge_frames old new).
 Proof. apply dedup_sorted, sort_index_sorted. Qed.
+
+(* ---------------------------------------------------------------- the table store on the cache *)
+Section TableProofs.
+  Variable flen fmem : frame -> Z.
+  Variable dirsize : Z.
+  Hypothesis Hfm : forall f, 0 <= fmem f <= flen f.
+  Variable K : list name.
+  Hypothesis HK : prefix_free K.
+
+  Definition stored (s : cache frame) (n : name) : option frame := file_of frame (lookup frame (c_disk frame s) n).
+
+  (* a set stores the documented merge of what is stored with the new table, for every key and history *)
+  Theorem tbl_set_spec s n new t1 t2 :
+    Inv frame fmem K s -> In n K ->
+    let old := match stored s n with Some f => f | None => [] end in
+    (match stored s n with Some f => flen f <= c_max frame s | None => True end) ->
+    flen (merge_frames old new) <= c_max frame s ->
+    exists s', tbl_set flen fmem dirsize s n new t1 t2 = (s', TSet) /\
+               Inv frame fmem K s' /\ c_max frame s' = c_max frame s /\
+               stored s' n = Some (merge_frames old new) /\
+               forall k, In k K -> k <> n -> stored s' k = stored s k.
+  Proof.
+    intros I HnK old Hfit1 Hfit2. unfold tbl_set.
+    destruct (get_inv frame flen fmem dirsize Hfm K s n t1 I HnK) as (s1 & Hg & I1 & Hd1 & Hm1).
+    rewrite Hg. unfold stored in *.
+    assert (Emerged : exists s2, update_file frame flen fmem s1 n (merge_frames old new) t2 = (s2, inl true) /\
+              Inv frame fmem K s2 /\ c_max frame s2 = c_max frame s1 /\
+              lookup frame (c_disk frame s2) n = Some (File (merge_frames old new)) /\
+              forall k, In k K -> k <> n ->
+                file_of frame (lookup frame (c_disk frame s2) k) = file_of frame (lookup frame (c_disk frame s1) k)).
+    { pose proof (update_inv frame flen fmem Hfm K HK s1 n (merge_frames old new) t2 I1 HnK) as U.
+      rewrite Hm1 in U. destruct (flen (merge_frames old new) >? c_max frame s) eqn:E.
+      - rewrite Z.gtb_ltb in E. apply Z.ltb_lt in E. lia.
+      - rewrite <- Hm1 in U. exact U. }
+    destruct Emerged as (s2 & Hu & I2 & Hm2 & Hl2 & Hoth).
+    destruct (file_of frame (lookup frame (c_disk frame s) n)) as [f|] eqn:Ef.
+    - destruct (flen f >? c_max frame s) eqn:E; [rewrite Z.gtb_ltb in E; apply Z.ltb_lt in E; lia|].
+      fold old. rewrite Hu. exists s2. split; [reflexivity|]. split; [exact I2|]. split; [congruence|].
+      split; [rewrite Hl2; reflexivity|]. intros k Hk Hkn. rewrite Hoth, Hd1 by assumption. reflexivity.
+    - fold old. rewrite Hu. exists s2. split; [reflexivity|]. split; [exact I2|]. split; [congruence|].
+      split; [rewrite Hl2; reflexivity|]. intros k Hk Hkn. rewrite Hoth, Hd1 by assumption. reflexivity.
+  Qed.
+
+  Theorem tbl_get_spec s n t :
+    Inv frame fmem K s -> In n K ->
+    (match stored s n with Some f => flen f <= c_max frame s | None => True end) ->
+    exists s', tbl_get flen fmem dirsize s n t = (s', match stored s n with Some f => TVal f | None => TUndef end) /\
+               Inv frame fmem K s' /\ c_max frame s' = c_max frame s /\ forall k, stored s' k = stored s k.
+  Proof.
+    intros I HnK Hfit. unfold tbl_get.
+    destruct (get_inv frame flen fmem dirsize Hfm K s n t I HnK) as (s1 & Hg & I1 & Hd1 & Hm1).
+    rewrite Hg. unfold stored in *.
+    destruct (file_of frame (lookup frame (c_disk frame s) n)) as [f|] eqn:Ef.
+    - destruct (flen f >? c_max frame s) eqn:E; [rewrite Z.gtb_ltb in E; apply Z.ltb_lt in E; lia|].
+      exists s1. split; [reflexivity|]. split; [exact I1|]. split; [exact Hm1|]. intros k. rewrite Hd1. reflexivity.
+    - exists s1. split; [reflexivity|]. split; [exact I1|]. split; [exact Hm1|]. intros k. rewrite Hd1. reflexivity.
+  Qed.
+End TableProofs.
+
+(* ---------------------------------------------------------------- closing over the regenerated flags *)
+Lemma accounting_flag (b : bool) : b = true ->
+  forall (C : Type) (clen cmem : C -> Z) (dirsize : Z), (forall c, 0 <= cmem c <= clen c) ->
+  forall K, prefix_free K -> forall d0 mx ops, disk_ok C K d0 -> 0 <= mx -> Forall (op_ok C K) ops ->
+  accounting C cmem (fst (kvs_run C clen cmem dirsize b (open_cache C d0 mx) ops)).
+Proof. intros ->. exact accounting_all_histories. Qed.
+
+Lemma refines_flag (b : bool) : b = true ->
+  forall (C : Type) (clen cmem : C -> Z) (dirsize : Z), (forall c, 0 <= cmem c <= clen c) ->
+  forall K, prefix_free K -> forall d0 m0 mx ops, disk_ok C K d0 -> 0 <= mx ->
+  (forall k, In k K -> assoc m0 k = file_of C (lookup C d0 k)) -> Forall (op_ok C K) ops ->
+  snd (kvs_run C clen cmem dirsize b (open_cache C d0 mx) ops) = snd (spec_run C clen (mkS C m0 (norm_max mx)) ops).
+Proof. intros ->. exact refines_dictionary. Qed.
+
+Lemma fresh_store_flag (b : bool) : b = true ->
+  forall (C : Type) (clen cmem : C -> Z) (dirsize : Z), (forall c, 0 <= cmem c <= clen c) ->
+  forall K, prefix_free K -> forall mx ops, 0 <= mx -> Forall (op_ok C K) ops ->
+  snd (kvs_run C clen cmem dirsize b (open_cache C [] mx) ops) = snd (spec_run C clen (mkS C [] (norm_max mx)) ops).
+Proof.
+  intros Hb C clen cmem dirsize Hcm K HK mx ops Hmx Hok.
+  apply (refines_flag b Hb C clen cmem dirsize Hcm K HK [] [] mx ops); try assumption.
+  - apply disk_ok_empty. exact HK.
+  - intros k Hk. destruct HK as [Hnil _]. destruct k; [contradiction | reflexivity].
+Qed.
+
+Lemma merge_flag (b : bool) : b = true -> forall old new i,
+  first_row i (merge_frames old new) = match first_row i old with Some v => Some v | None => first_row i new end.
+Proof. intros _. exact merge_existing_rows_win. Qed.
+
+(* ---------------------------------------------------------------- decidable forms of the hypotheses *)
+Fixpoint is_prefixb (q n : name) : bool :=
+  match q, n with
+  | [], _ => true
+  | x :: q', y :: n' => Z.eqb x y && is_prefixb q' n'
+  | _ :: _, [] => false
+  end.
+
+Definition prefix_freeb (K : list name) : bool :=
+  forallb (fun a => negb (name_eqb a []) &&
+                    forallb (fun b => negb (is_prefixb a b && negb (name_eqb a b))) K) K.
+
+Lemma is_prefixb_app q : forall r, is_prefixb q (q ++ r) = true.
+Proof. induction q as [|x q IH]; intros r; simpl; [reflexivity|]. rewrite Z.eqb_refl, IH. reflexivity. Qed.
+
+Lemma prefix_freeb_ok K : prefix_freeb K = true -> prefix_free K.
+Proof.
+  unfold prefix_freeb. rewrite forallb_forall. intros H. split.
+  - intros Hin. specialize (H [] Hin). simpl in H. discriminate.
+  - intros a b Ha Hb Hp. specialize (H a Ha). apply andb_true_iff in H. destruct H as [_ H].
+    rewrite forallb_forall in H. specialize (H b Hb).
+    pose proof (proper_prefix_neq a b Hp) as Hne. destruct Hp as (x & r & ->).
+    rewrite is_prefixb_app in H. simpl in H. apply name_eqb_neq in Hne. rewrite Hne in H. discriminate.
+Qed.
+
+Definition op_okb {C} (K : list name) (o : op C) : bool :=
+  match o with
+  | OSet n _ _ | OGet n _ | OUnload n => existsb (name_eqb n) K
+  | OReopen mx => Z.leb 0 mx
+  end.
+
+Lemma op_okb_ok {C} K (ops : list (op C)) : forallb (op_okb K) ops = true -> Forall (op_ok C K) ops.
+Proof.
+  rewrite forallb_forall, Forall_forall. intros H o Ho. specialize (H o Ho).
+  assert (Hin : forall n, existsb (name_eqb n) K = true -> In n K).
+  { intros n Hn. apply existsb_exists in Hn. destruct Hn as (k & Hk & E). apply name_eqb_eq in E. subst. exact Hk. }
+  destruct o; simpl in *; try (apply Hin; exact H). apply Z.leb_le. exact H.
+Qed.
